@@ -6,6 +6,7 @@ From Eino Require Import Proofs.ConcatOrder Proofs.ConcatOrderMsg Proofs.ConcatM
 From Eino Require Import Proofs.ConcatKeyed Proofs.ConcatMsgMap.
 From Eino Require Import Proofs.ConcatSuffix Proofs.ConcatSuffixMsg Proofs.ConcatSuffixMap Proofs.ConcatAny Proofs.ConcatSplit.
 From Eino Require Import Model.ConcatStream Proofs.ConcatStream.
+From Eino Require Import Model.ConcatDeep Proofs.ConcatKinds Proofs.ConcatDeep Proofs.ConcatDeepEmbed.
 From Coq Require Import Sorting.Sorted Sorting.Permutation.
 
 (* Every theorem quantifies over the registry [U] of concat functions registered by the
@@ -839,3 +840,142 @@ Example registered_interface_type_nonvacuous :
   concat_stream [COther 9 0; COther 9 0] = Ok (COther 9 0) /\
   concat_stream [COther 9 3] = Ok (COther 9 3).
 Proof. repeat split; vm_compute; reflexivity. Qed.
+
+(* ------------------------------------------------------------------ maps of these, at any depth *)
+
+(* map[string]any chunks whose values, at ANY nesting depth, are messages (or typed nil
+   message pointers), message lists, ordinary values, nil interfaces or again maps of these
+   (Model/ConcatDeep.v; the one-level model of Model/ConcatMsgMap.v is the special case
+   without nested maps and lists): concatStreamReader never panics -- in the model running
+   out of fuel is the panic outcome, so this also says that the fuel supplied (the nesting
+   depth) is enough -- ... *)
+Theorem deep_total :
+  forall (U : UserFn) (L : UserLaw) (l : list (list (string * dval))), dmap_stream l <> Panic.
+Proof. exact @dmap_stream_no_panic. Qed.
+Print Assumptions deep_total.
+
+(* ... more fuel never changes a result ... *)
+Theorem deep_fuel_irrelevant :
+  forall (U : UserFn) (f f' : nat) (ms : list (list (string * dval))),
+    mdepth ms <= f -> mdepth ms <= f' -> deep_maps (S f) ms = deep_maps (S f') ms.
+Proof. exact @deep_maps_fuel. Qed.
+Print Assumptions deep_fuel_irrelevant.
+
+(* ... every non-empty prefix may be concatenated first ... *)
+Theorem deep_rechunk :
+  forall (U : UserFn) (L : UserLaw) (xs ys : list (list (string * dval))),
+    xs <> [] ->
+    match dmap_stream xs with
+    | Ok c =>
+        match dmap_stream (c :: ys), dmap_stream (xs ++ ys) with
+        | Ok a, Ok b => a = b
+        | Err _, Err _ => True
+        | _, _ => False
+        end
+    | Err _ => exists e, dmap_stream (xs ++ ys) = Err e
+    | Panic => False
+    end.
+Proof. exact @dmap_stream_rechunk. Qed.
+Print Assumptions deep_rechunk.
+
+(* ... and so may any segment, and the groups of any way of cutting the chunk list. *)
+Theorem deep_segment :
+  forall (U : UserFn) (L : UserLaw) (LS : UserLawS) (pre seg post : list (list (string * dval))),
+    seg <> [] ->
+    match dmap_stream seg with
+    | Ok c =>
+        match dmap_stream (pre ++ c :: post), dmap_stream (pre ++ seg ++ post) with
+        | Ok a, Ok b => a = b
+        | Ok _, _ => False
+        | _, Ok _ => False
+        | _, _ => True
+        end
+    | _ => is_ok (dmap_stream (pre ++ seg ++ post)) = false
+    end.
+Proof. exact @dmap_stream_segment. Qed.
+Print Assumptions deep_segment.
+
+Theorem deep_split_any :
+  forall (U : UserFn) (L : UserLaw) (LS : UserLawS) (groups : list (list (list (string * dval)))) (cs : list (list (string * dval))),
+    Forall2 (fun g c => g <> [] /\ dmap_stream g = Ok c) groups cs ->
+    match dmap_stream cs, dmap_stream (List.concat groups) with
+    | Ok a, Ok b => a = b
+    | Ok _, _ => False
+    | _, Ok _ => False
+    | _, _ => True
+    end.
+Proof. exact @dmap_stream_split. Qed.
+Print Assumptions deep_split_any.
+
+(* The step behind it, for any value type: one key of concatMaps = drop the nil values, require
+   one kind (toSliceValue), concatenate with that kind's function.  When every kind's function
+   satisfies the prefix law on homogeneous lists and answers with a non-nil value of its own
+   kind, the key satisfies the prefix law for ALL value lists (mixed kinds and nil values
+   included: it fails in the same cases). *)
+Theorem one_kind_per_key_lifting :
+  forall (A K : Type) (isnil : A -> bool) (nilv : A) (kind : A -> K) (keqb : K -> K -> bool)
+         (kc : K -> list A -> res A),
+    (forall a b, keqb a b = true <-> a = b) -> isnil nilv = true ->
+    (forall k l v, l <> [] -> allk isnil kind k l -> kc k l = Ok v -> isnil v = false /\ kind v = k) ->
+    (forall k xs rest, xs <> [] -> allk isnil kind k xs -> allk isnil kind k rest ->
+       match kc k xs with
+       | Ok v => match kc k (v :: rest), kc k (xs ++ rest) with
+                 | Ok a, Ok b => a = b | Ok _, _ => False | _, Ok _ => False | _, _ => True end
+       | _ => is_ok (kc k (xs ++ rest)) = false
+       end) ->
+    forall vs rest,
+      match gkey isnil nilv kind keqb kc vs with
+      | Ok v => match gkey isnil nilv kind keqb kc (v :: rest), gkey isnil nilv kind keqb kc (vs ++ rest) with
+                | Ok a, Ok b => a = b | Ok _, _ => False | _, Ok _ => False | _, _ => True end
+      | _ => is_ok (gkey isnil nilv kind keqb kc (vs ++ rest)) = false
+      end.
+Proof. exact @gkey_prefix. Qed.
+Print Assumptions one_kind_per_key_lifting.
+
+Definition ex_inner1 : list (string * dval) :=
+  [("m"%string, DMsg ex_m1); ("l"%string, DList [Some ex_m1; None]); ("s"%string, DVal (CStr "x")); ("z"%string, DVal CNil)].
+Definition ex_inner2 : list (string * dval) :=
+  [("m"%string, DMsg ex_m2); ("l"%string, DList [Some ex_m2; Some ex_m3]); ("s"%string, DVal (CStr "y"))].
+Definition ex_inner3 : list (string * dval) :=
+  [("l"%string, DList [None; Some ex_m1]); ("m"%string, DMsg ex_m3); ("z"%string, DPtrNil)].
+
+Example deep_nonvacuous :
+  let c1 := [("in"%string, DMap [("deeper"%string, DMap ex_inner1)]); ("top"%string, DMsg ex_m1)] in
+  let c2 := [("in"%string, DMap [("deeper"%string, DMap ex_inner2)]); ("top"%string, DMsg ex_m2)] in
+  let c3 := [("top"%string, DMsg ex_m3); ("in"%string, DMap [("deeper"%string, DMap ex_inner3); ("n"%string, DVal (CNum 0 1))])] in
+  exists c r m ml0 ml1,
+    dmap_stream [c1; c2] = Ok c /\ dmap_stream [c; c3] = Ok r /\ dmap_stream [c1; c2; c3] = Ok r /\
+    concat_msgs [Some ex_m1; Some ex_m2; Some ex_m3] = Ok m /\
+    concat_msgs [Some ex_m1; Some ex_m2] = Ok ml0 /\
+    concat_msgs [Some ex_m3; Some ex_m1] = Ok ml1 /\
+    r = [("in"%string, DMap [("deeper"%string,
+               DMap [("m"%string, DMsg m); ("l"%string, DList [Some ml0; Some ml1]); ("s"%string, DVal (CStr "xy")); ("z"%string, DPtrNil)]);
+                              ("n"%string, DVal (CNum 0 1))]);
+         ("top"%string, DMsg m)].
+Proof.
+  eexists. eexists. eexists. eexists. eexists.
+  split; [vm_compute; reflexivity|]. split; [vm_compute; reflexivity|]. split; [vm_compute; reflexivity|].
+  split; [vm_compute; reflexivity|]. split; [vm_compute; reflexivity|]. split; [vm_compute; reflexivity|]. vm_compute. reflexivity.
+Qed.
+
+Example deep_nonvacuous_err :
+  let c1 := [("in"%string, DMap [("k"%string, DMsg ex_m1)])] in
+  let c2 := [("in"%string, DMap [("k"%string, DList [Some ex_m2])])] in
+  let c3 := [("in"%string, DMap [("k"%string, DMap [])])] in
+  dmap_stream [c1; c2] = Err E_TYPE /\ dmap_stream [c1; c3] = Err E_TYPE /\ dmap_stream [c2; c3] = Err E_TYPE /\
+  dmap_stream [[("in"%string, DMap [("k"%string, DList [Some ex_m1])])]; [("in"%string, DMap [("k"%string, DList [])])]] = Err E_LEN /\
+  exists c, dmap_stream [c1; c1] = Ok c /\ dmap_stream [c; c2] = Err E_TYPE /\ dmap_stream [c1; c1; c2] = Err E_TYPE.
+Proof.
+  split; [vm_compute; reflexivity|]. split; [vm_compute; reflexivity|]. split; [vm_compute; reflexivity|].
+  split; [vm_compute; reflexivity|].
+  eexists. split; [vm_compute; reflexivity|]. split; vm_compute; reflexivity.
+Qed.
+
+(* The one-level model (msgmap_total, msgmap_rechunk above) is the restriction of the nested
+   one: on chunks without nested maps and message lists the two compute the same (the
+   correspondence check evaluates both on every such case). *)
+Theorem deep_extends_msgmap :
+  forall (U : UserFn) (l : list (list (string * mval))),
+    dmap_stream (map d_of_mmap l) = res_map d_of_mmap (mmap_stream l).
+Proof. exact @dmap_stream_embed. Qed.
+Print Assumptions deep_extends_msgmap.
